@@ -233,6 +233,7 @@ def run(ctx):
 
     # ---- C04.f witnesses
     witness_rule(ctx, "C04.f", "C04")
+    _imports(ctx)
 
 
 def _is_parent_param(s):
@@ -288,6 +289,12 @@ def _check_update_value(chk, f):
     for v in want:
         if v not in seen:
             chk.ob("C04.d", f"{f.path} [{v}]", False, "variant has no arm of its own", f.loc())
+
+
+def _imports(ctx):
+    from props.common import import_rules
+
+    import_rules(ctx, "C05", {"C05.a", "C05.b", "C05.c", "C05.d"}, "C04.g", "imported from C05 (AtomicBucket<f64> is the standard histogram storage behind Histogram::record): slot claim/publish protocol, wait-before-read, link-before-publish, claims fenced before a detached block is read — otherwise a recorded value is delivered zero times", floor=10)
 
 
 def run_config(ctx):
